@@ -70,6 +70,32 @@ check("C17", "exploration",
       "TLA+ access model checked by TLC; sanitizer-instrumented replay of the call space; real marshalled arguments checked against the model",
       "DESIGN 3 C17")
 
+check("C02", "model_checking",
+      "Design: spec/Constraints.tla transcribes the case analysis of PCBO.add_constraint_{eq,ne,lt,le,gt,ge}_zero (special cases, bounds, "
+      "slack sizing with/without log_trick, the sign ancilla of ne); TLC checks the contract PenaltyExact (F >= 0; min over ancillas 0 iff "
+      "the relation holds; >= lam otherwise; weaker when warned unsatisfiable), fresh ancilla names, soundness of the 'cannot be "
+      "satisfied' branches and linearity in lam for EVERY polynomial over two labels with small coefficients, every relation, log_trick "
+      "and several kinds of bounds. Code: seeded scenarios of 1-3 constraints on one real PCBO (random and special-case-shaped "
+      "polynomials over labels of mixed types, dict / PUBO / PCBO arguments, bounds omitted / partial / exact / loose); "
+      "spec/CheckConstraints.tla (TLC) evaluates the contract on the implementation's penalty for every assignment of variables and "
+      "ancillas, is_solution_valid against the constraints passed, ancilla freshness across the scenario, num_ancillas, argument immutability.",
+      "bounded: <= 3 problem labels, |coef| <= 3, penalties with <= 9 ancillas for the truth-table clauses; bounds supplied are true "
+      "enclosures computed by brute force; trusted: TLC, the record encoder (exact rationals over one denominator)",
+      "TLA+ contract + transcription checked by TLC; real constraint calls recorded and judged by TLC against the contract", "DESIGN 3 C02")
+check("C03", "model_checking",
+      "As C02 for PCSO: design check of the wrapper (to boolean, constrain, back to spin) on every spin polynomial over two labels; "
+      "real PCSO scenarios judged by spec/CheckConstraints.tla over spin assignments (F >= 0, zero iff H(z) R 0, >= lam otherwise), "
+      "ancilla names never repeated across the constraints of a scenario, num_ancillas covers every ancilla present, is_solution_valid.",
+      "as C02; spin penalties carry dyadic coefficients (one power-of-two denominator per record)",
+      "TLA+ contract + transcription checked by TLC; real constraint calls recorded and judged by TLC against the contract", "DESIGN 3 C03")
+check("C06", "model_checking",
+      "Design: the sixteen gate methods transcribed in spec/Constraints.tla satisfy GateOK (no ancilla, 0 where the gate holds, >= lam "
+      "elsewhere) and the sat builders their truth functions, for all arities <= 3 (4 thorough) over labels, a negation and a conjunction. "
+      "Code: seeded calls of all sixteen real methods with 1-5 operands (labels of mixed types, expressions passed as dict or PUBO), "
+      "sequences of gates on one model; spec/CheckConstraints.tla judges penalty and is_solution_valid on every assignment.",
+      "bounded: 4 labels, arity <= 5, lam in {1/2,1,2,3}; operands' polynomials are defined by the harness (not by qubovert.sat)",
+      "TLA+ contract + transcription checked by TLC; real gate-constraint calls recorded and judged by TLC", "DESIGN 3 C06")
+
 
 def build():
     props = [json.loads(l)["id"] for l in open(os.path.join(VERIF, "properties.jsonl"))]
